@@ -659,6 +659,30 @@ func chanKey(ch any) uintptr { return reflect.ValueOf(ch).Pointer() }
 
 func (s *Sched) isClosed(ch any) bool { return s.closed[chanKey(ch)] }
 
+// isClosedRecv is isClosed for the receiving side. It also recognises a channel closed by code
+// that is not rewritten (the standard library's context cancels ctx.Done() that way): with the
+// run token held and the buffer empty, a non-blocking receive that completes can only mean
+// "closed", so the probe consumes nothing.
+func (s *Sched) isClosedRecv(ch any) bool {
+	k := chanKey(ch)
+	if s.closed[k] {
+		return true
+	}
+	v := reflect.ValueOf(ch)
+	if v.IsNil() || v.Len() > 0 {
+		return false
+	}
+	x, ok := v.TryRecv()
+	if x.IsValid() && !ok {
+		s.closed[k] = true
+		return true
+	}
+	if ok {
+		panic(Unsupported{"a value arrived on a channel from outside the scheduler"})
+	}
+	return false
+}
+
 // Send is `ch <- v`.
 func Send[T any](ch chan<- T, v T) {
 	s := S
@@ -698,7 +722,7 @@ func Recv2[T any](ch <-chan T) (T, bool) {
 	if ch == nil {
 		s.point("recv(nil)", nil, func() bool { return false }, time.Time{})
 	}
-	s.point("recv", ch, func() bool { return len(ch) > 0 || s.isClosed(ch) }, time.Time{})
+	s.point("recv", ch, func() bool { return len(ch) > 0 || s.isClosedRecv(ch) }, time.Time{})
 	v, ok := <-ch
 	return v, ok
 }
@@ -737,7 +761,7 @@ type RecvOp[T any] struct {
 func RecvCase[T any](ch <-chan T) *RecvOp[T] { return &RecvOp[T]{ch: ch} }
 
 func (r *RecvOp[T]) ready(s *Sched) bool {
-	return r.ch != nil && (len(r.ch) > 0 || s.isClosed(r.ch))
+	return r.ch != nil && (len(r.ch) > 0 || s.isClosedRecv(r.ch))
 }
 func (r *RecvOp[T]) fire() { r.V, r.OK = <-r.ch }
 func (r *RecvOp[T]) reflectCase() reflect.SelectCase {
